@@ -77,6 +77,9 @@ class Obj:
         self.name = name
         self.cls = cls
         self.attrs = attrs
+        # optional fall-back for attributes that are not stubbed: name -> value (e.g. a method of the
+        # class, interpreted), or None
+        self.resolver = None
 
     def __repr__(self):
         return f"<obj {self.name}>"
@@ -115,10 +118,17 @@ class Unknown:
         self.what = what
 
 
+def _exact(v):
+    """Floats inside arrays are kept as exact rationals (2.0 -> 2, 0.5 -> 1/2)."""
+    if isinstance(v, (float, np.floating)) and not isinstance(v, bool):
+        return sp.nsimplify(float(v))
+    return v
+
+
 def arr(values):
     a = np.empty(len(values), dtype=object)
     for i, v in enumerate(values):
-        a[i] = v
+        a[i] = _exact(v)
     return a
 
 
@@ -138,10 +148,10 @@ def _obj_array(v):
             return out
         out = np.empty(len(items), dtype=object)
         for i, x in enumerate(items):
-            out[i] = x
+            out[i] = _exact(x)
         return out
     out = np.empty((), dtype=object)
-    out[()] = v
+    out[()] = _exact(v)
     return out
 
 
@@ -348,6 +358,11 @@ class Interp:
             if isinstance(base, list):
                 base[idx] = v
                 return
+        if isinstance(t, ast.Attribute):
+            base = self.ev(t.value, env)
+            if isinstance(base, Obj):
+                base.attrs[t.attr] = v
+                return
         raise Undecided(f"store to `{norm(t)[:50]}`")
 
     # -- expressions
@@ -373,7 +388,9 @@ class Interp:
         v = self.ev(sl, env)
         if isinstance(v, np.ndarray) and v.dtype == bool:
             return v
-        if isinstance(v, (str, slice)):
+        if isinstance(v, (str, slice)) or v is Ellipsis or v is None:
+            return v
+        if isinstance(v, np.ndarray) and v.dtype.kind in "iu":
             return v
         return self._int(v)
 
@@ -557,12 +574,19 @@ class Interp:
             flip = {ast.Lt: ast.Gt, ast.Gt: ast.Lt, ast.LtE: ast.GtE, ast.GtE: ast.LtE, ast.Eq: ast.Eq, ast.NotEq: ast.NotEq}
             if a is not None and b is None:
                 return self._cmp(flip[type(op)](), right, left)
+            if b is not None and a is None and b == 0 and isinstance(left, sp.Basic) and left.is_positive and \
+                    isinstance(op, (ast.Eq, ast.NotEq)):
+                return isinstance(op, ast.NotEq)
             if b is not None and a is None:
                 g = left
                 if isinstance(g, sp.Abs) and g.args[0] in self.generic:
                     g = g.args[0]
                 if g in self.generic and 0 <= b < self.SMALL:
                     return {ast.Eq: False, ast.NotEq: True, ast.Lt: False, ast.LtE: False, ast.Gt: True, ast.GtE: True}[type(op)]
+                if isinstance(left, sp.Abs) and 0 <= b < self.SMALL and left.free_symbols and left.free_symbols <= self.generic \
+                        and isinstance(op, (ast.Lt, ast.LtE)):
+                    # |analytic expression of generic quantities| below a tiny literal: a thin set, not a generic point
+                    return False
             raise Undecided("a comparison of symbolic data")
         return {ast.Eq: a == b, ast.NotEq: a != b, ast.Lt: a < b, ast.LtE: a <= b,
                 ast.Gt: a > b, ast.GtE: a >= b}[type(op)]
@@ -594,9 +618,15 @@ class Interp:
             if e.attr == "pi":
                 return sp.pi
             return ("np", e.attr)
+        if isinstance(base, tuple) and len(base) == 2 and base[0] == "np" and base[1] in ("linalg", "random", "ma"):
+            return ("np", f"{base[1]}.{e.attr}")
         if isinstance(base, Obj):
             if e.attr in base.attrs:
                 return base.attrs[e.attr]
+            if base.resolver is not None:
+                found, v = base.resolver(e.attr)
+                if found:
+                    return v
             raise Undecided(f"attribute {base.name}.{e.attr}")
         if isinstance(base, np.ndarray):
             if e.attr == "size":
@@ -607,7 +637,7 @@ class Interp:
                 return int(base.ndim)
             if e.attr == "T":
                 return base.T
-            if e.attr in ("dot", "copy", "flatten", "ravel"):
+            if e.attr in ("dot", "copy", "flatten", "ravel", "astype", "sum", "reshape", "tolist"):
                 return ("method", base, e.attr)
         if isinstance(base, list) and e.attr == "append":
             return ("method", base, "append")
@@ -647,8 +677,16 @@ class Interp:
                 if base.size == 0 or other.size == 0:
                     return np.empty(base.shape[:-1] + other.shape[1:], dtype=object)
                 return base.dot(other)
-            if name == "copy":
+            if name in ("copy", "astype"):
                 return base.copy()
+            if name == "sum":
+                axis = kw.get("axis", args[0] if args else None)
+                return base.sum(axis=None if axis is None else self._int(axis)) if base.size else sp.Integer(0)
+            if name == "reshape":
+                shp = args[0] if len(args) == 1 and isinstance(args[0], (tuple, list)) else args
+                return base.reshape(tuple(self._int(x) for x in shp))
+            if name == "tolist":
+                return base.tolist()
             if name in ("flatten", "ravel"):
                 return base.flatten()
             if name == "append":
@@ -685,7 +723,7 @@ class Interp:
             v = list(args[0]) if args else []
             return v if name == "list" else tuple(v)
         if name == "sum":
-            tot = sp.Integer(0)
+            tot = args[1] if len(args) > 1 else sp.Integer(0)
             for x in args[0]:
                 tot = self.binop(ast.Add(), tot, x)
             return tot
@@ -763,6 +801,34 @@ class Interp:
             return a.dot(b)
         if name == "pi":
             return sp.pi
+        if name in ("sin", "cos", "tan", "sqrt", "arccos", "arctan2"):
+            fn = {"sin": sp.sin, "cos": sp.cos, "tan": sp.tan, "sqrt": sp.sqrt, "arccos": sp.acos, "arctan2": sp.atan2}[name]
+            vals = [a if isinstance(a, np.ndarray) else None for a in args]
+            arrs = [a for a in vals if a is not None]
+            if arrs:
+                shape = arrs[0].shape
+                out = np.empty(shape, dtype=object)
+                for idx in np.ndindex(shape):
+                    out[idx] = fn(*[(a[idx] if isinstance(a, np.ndarray) else a) for a in args])
+                return out
+            return fn(*[sp.nsimplify(a) if isinstance(a, float) else a for a in args])
+        if name == "linalg.norm":
+            v = args[0] if isinstance(args[0], np.ndarray) else _obj_array(args[0])
+            axis = kw.get("axis", args[1] if len(args) > 1 else None)
+            sq = v * v
+            tot = sq.sum(axis=None if axis is None else self._int(axis))
+            if isinstance(tot, np.ndarray):
+                out = np.empty(tot.shape, dtype=object)
+                for idx in np.ndindex(tot.shape):
+                    out[idx] = sp.sqrt(tot[idx])
+                return out
+            return sp.sqrt(tot)
+        if name == "moveaxis":
+            return np.moveaxis(args[0], self._int(args[1]), self._int(args[2]))
+        if name == "flatnonzero" and isinstance(args[0], np.ndarray) and args[0].dtype == bool:
+            return np.flatnonzero(args[0])
+        if name == "where" and len(args) == 1 and isinstance(args[0], np.ndarray) and args[0].dtype == bool:
+            return tuple(np.where(args[0]))
         if name == "exp":
             v = args[0]
             if isinstance(v, np.ndarray):
@@ -783,9 +849,32 @@ class Interp:
             reps = tuple(self._int(x) for x in reps) if isinstance(reps, (tuple, list)) else (self._int(reps),)
             return np.tile(v, reps)
         if name == "arange":
-            return [int(x) for x in range(*[self._int(a) for a in args])]
-        if name in ("abs", "absolute"):
+            return np.arange(*[self._int(a) for a in args], dtype=int)
+        if name == "repeat":
+            v = args[0] if isinstance(args[0], np.ndarray) else _obj_array(args[0])
+            reps = args[1]
+            reps = np.array([self._int(x) for x in reps], dtype=int) if isinstance(reps, (list, tuple, np.ndarray)) else self._int(reps)
+            axis = kw.get("axis", args[2] if len(args) > 2 else None)
+            return np.repeat(v, reps, axis=None if axis is None else self._int(axis))
+        if name == "stack":
+            parts = [x if isinstance(x, np.ndarray) else _obj_array(x) for x in args[0]]
+            axis = kw.get("axis", args[1] if len(args) > 1 else 0)
+            return np.stack([p_.astype(object) for p_ in parts], axis=self._int(axis))
+        if name in ("real", "imag"):
+            fn = sp.re if name == "real" else sp.im
             v = args[0]
+            if isinstance(v, np.ndarray):
+                out = np.empty(v.shape, dtype=object)
+                for idx in np.ndindex(v.shape):
+                    out[idx] = fn(v[idx])
+                return out
+            return fn(v)
+        if name in ("longdouble", "float64", "float32", "int64", "int32", "complex128"):
+            return ("dtype", name)
+        if name in ("abs", "absolute", "fabs"):
+            v = args[0]
+            if isinstance(v, (int, float)) and not isinstance(v, bool):
+                return abs(v)
             if isinstance(v, np.ndarray):
                 out = np.empty(v.shape, dtype=object)
                 for idx in np.ndindex(v.shape):
